@@ -30,6 +30,7 @@ type GenCfg struct {
 	Ancient                bool   // dates before the year 1000
 	PNegPrice              float64 // rate of negative quotes
 	MinTxn                 int
+	BusyDay                bool // hundreds of transactions on one day (code that goes parallel above a threshold)
 	UnicodeDesc            bool // descriptions full of multi-byte characters
 }
 
@@ -37,8 +38,8 @@ func DefaultGen() GenCfg {
 	return GenCfg{MaxAcc: 9, MaxCom: 4, MaxTxn: 30, MaxSpan: 500, PAccrual: 0.06, PPerf: 0.1, PAssert: 0.25, PClose: 0.3, PReopen: 0.1, PUnicode: 0.05, PNegZero: 0.12}
 }
 
-var comPool = []string{"CHF", "USD", "EUR", "AAPL", "BTC", "GLD", "X1", "Ærø"}
-var segPool = []string{"Bank", "Cash", "Broker", "Checking", "Savings", "US", "CH", "Food", "Rent", "Tax", "Salary", "Misc", "A1", "B2", "bank", "k2", "Übrig", "日本"}
+var comPool = []string{"CHF", "USD", "EUR", "AAPL", "BTC", "GLD", "X1", "Ærø", "usd"} // "usd" and "USD" are different commodities
+var segPool = []string{"Bank", "Cash", "Broker", "Checking", "Savings", "US", "CH", "Food", "Rent", "Tax", "Salary", "Misc", "A1", "B2", "bank", "k2", "A01", "Bank2", "Übrig", "日本"} // "A1"/"A01" differ in a leading zero only; "Bank" is a string prefix of "Bank2"
 var roots = []string{"Assets", "Liabilities", "Equity", "Income", "Expenses"}
 var descPool = []string{"Groceries", "Salary", "Rent", "Transfer", "Buy", "Sell", "Fee", "Dividend", "Tax", "Gift", "Coffee & cake", "Zürich trip", " Padded", "Trailing ", "two  spaces", "\n  Dinner on the next line", "30% off", "discount 100%", "x", ""}
 
@@ -181,6 +182,9 @@ func gen1(r *simrt.Rand, c GenCfg) *Journal {
 	var tieQty Q
 	for t := 0; t < ntx; t++ {
 		d := g.start + Day(r.Intn(g.span+1))
+		if c.BusyDay && r.P(0.8) {
+			d = g.start + Day(g.span/2) // most bookings fall on one day
+		}
 		u := usable(d)
 		if len(u) < 2 {
 			d = g.start + Day(g.span/4+1)
@@ -395,6 +399,29 @@ func gen1(r *simrt.Rand, c GenCfg) *Journal {
 					}
 				}
 			}
+		}
+	}
+	// an account that never holds anything and is closed early, and whose name is a
+	// string prefix of another account's name (its parent, or the name minus its last
+	// letter): closing it concerns no other account
+	if len(alAccs) > 0 && r.P(0.12) {
+		b := alAccs[r.Intn(len(alAccs))]
+		segs := strings.Split(b, ":")
+		a := ""
+		if len(segs) > 2 && r.P(0.5) {
+			a = strings.Join(segs[:len(segs)-1], ":")
+		} else if last := []rune(segs[len(segs)-1]); len(last) > 1 && len(segs) > 1 {
+			a = strings.Join(segs[:len(segs)-1], ":") + ":" + string(last[:len(last)-1])
+		}
+		taken := false
+		for _, x := range g.accs {
+			if x == a {
+				taken = true
+			}
+		}
+		if a != "" && !taken {
+			j.Dirs = append(j.Dirs, Dir{Kind: "open", Date: g.start, Account: a},
+				Dir{Kind: "close", Date: g.start + Day(r.Range(0, 1+g.span/2)), Account: a})
 		}
 	}
 	// prices
